@@ -10,6 +10,8 @@
 // Every functor logs begin/end (its thread is the event's thread), every parallel_invoke call logs
 // call/ret, main logs the wait call/ret.  Projection: the task set's outstanding count.
 #include <dispenso/parallel_invoke.h>
+
+#include <functional>
 #include <dispenso/task_set.h>
 #include <dispenso/thread_pool.h>
 
@@ -66,6 +68,40 @@ struct World {
 
 static void functor(World* w, int k);
 
+// Functors handed over as NAMED objects (lvalues, also const and std::function ones) that go out of scope when this
+// function returns, i.e. long before the task set's wait(): parallel_invoke must own what it queues (it copies lvalues),
+// exactly as with the temporaries of invokeKids.  Used by every functor with an odd id.
+static void invokeKidsNamed(World* w, const std::vector<int>& ks) {
+  auto& ts = *w->cts;
+  auto f0 = [w, a = ks[0]]() { functor(w, a); };
+  switch (ks.size()) {
+    case 1:
+      dispenso::parallel_invoke(ts, f0);
+      break;
+    case 2: {
+      const auto f1 = [w, a = ks[1]]() { functor(w, a); };
+      dispenso::parallel_invoke(ts, f0, f1);
+      break;
+    }
+    case 3: {
+      std::function<void()> f1 = [w, a = ks[1]]() { functor(w, a); };
+      auto f2 = [w, a = ks[2]]() { functor(w, a); };
+      dispenso::parallel_invoke(ts, f0, f1, f2);
+      break;
+    }
+    case 4: {
+      auto f1 = [w, a = ks[1]]() { functor(w, a); };
+      const std::function<void()> f2 = [w, a = ks[2]]() { functor(w, a); };
+      auto f3 = [w, a = ks[3]]() { functor(w, a); };
+      dispenso::parallel_invoke(ts, f0, f1, f2, f3);
+      break;
+    }
+    default:
+      fprintf(stderr, "ERROR drv_invoke: arity %zu not supported\n", ks.size());
+      _exit(3);
+  }
+}
+
 static void invokeKids(World* w, const std::vector<int>& ks) {
   auto& ts = *w->cts;
   switch (ks.size()) {
@@ -96,7 +132,10 @@ static void body(World* w, int k) {
   if (!ks.empty()) {
     ctl::point("DrOp");
     ctl::note("call", 1, k);
-    invokeKids(w, ks);
+    if (k & 1)
+      invokeKidsNamed(w, ks);
+    else
+      invokeKids(w, ks);
     ctl::point("DrRet");
     ctl::note("ret", 1, k);
   }
